@@ -167,6 +167,12 @@ func Run(c *Case, ro RunOpts) *Trace {
 		return container
 	}
 
+	rt.scopeOf = func(i int) scopeAPI { return getScope(i) }
+	for _, op := range c.Ops {
+		if op.K == OpDecorate && op.F != nil {
+			rt.decoIDs[op.F.ID] = true
+		}
+	}
 	rm := NewModel() // registrations adopted so far (for the risk guard)
 	writeInflight(c)
 	for pos, i := range order {
